@@ -1,7 +1,8 @@
+pub mod c06;
 pub mod c19;
 
 use crate::framework::PropertyCheck;
 
 pub fn all_checks() -> Vec<PropertyCheck> {
-  vec![c19::check_def()]
+  vec![c06::check_def(), c19::check_def()]
 }
